@@ -247,11 +247,37 @@ def replay(cex):
         ok = np.all(np.isfinite(r)) and np.all(np.isfinite(e)) and np.all(e >= 0)
         return (not ok), 'dea3%r -> %r, %r' % (tuple(vals), r, e)
     if kind == 'geometric':
-        Lv, av, qv = (float(asg.get(k, 0)) for k in ('L', 'a', 'q'))
-        with cm.quiet():
-            r, e = ex.dea3(Lv + av, Lv + av * qv, Lv + av * qv * qv)
-        bad = (r[0] != Lv + av * qv * qv) and (abs(r[0] - Lv) > 1e-6 * (abs(Lv) + abs(av)) or e[0] < abs(r[0] - Lv) * (1 - 1e-9) - 1e-300)
-        return bool(bad), 'dea3 on L=%r a=%r q=%r -> result %r abserr %r' % (Lv, av, qv, r, e)
+        Lm, am, qm = (float(asg.get(k, 0)) for k in ('L', 'a', 'q'))
+        # the model point, then the same transient with L commensurate with a (so that the float triple still carries the
+        # transient), then a sweep over 30 decades
+        cands = [(Lm, am, qm), (3 * am, am, qm), (-2 * am, am, qm)]
+        for s_ in (1e-15, 1e-12, 1e-8, 1e-3, 1.0, 1e3, 1e8, 1e15):
+            for q_ in (0.9, 0.5, -0.7, 2.0, -2.5, qm):
+                cands.append((3 * s_, s_, q_))
+        for Lv, av, qv in cands:
+            if av == 0 or qv in (0.0, 1.0):
+                continue
+            t0, t1, t2 = Lv + av, Lv + av * qv, Lv + av * qv * qv
+            # exact limit of the float triple actually passed (its own geometric model): L' = (t0 t2 - t1^2)/(t0 - 2 t1 + t2)
+            F0, F1, F2 = Fraction(t0), Fraction(t1), Fraction(t2)
+            den = F0 - 2 * F1 + F2
+            if den == 0:
+                continue
+            Lx = float((F0 * F2 - F1 * F1) / den)
+            d1, d2 = abs(t1 - t0), abs(t2 - t1)
+            eps = 2.0 ** -52
+            if d1 <= 4 * eps * max(abs(t0), abs(t1)) or d2 <= 4 * eps * max(abs(t1), abs(t2)):
+                continue            # differences at rounding level: the documented convergence fallback
+            s0 = (1.0 / (t2 - t1) - 1.0 / (t1 - t0))
+            if abs(s0 * t1) <= 1e-3:
+                continue            # documented irregular-behaviour guard
+            with cm.quiet():
+                r, e = ex.dea3(t0, t1, t2)
+            tol = 1e-6 * (abs(Lx) + abs(t0 - Lx))
+            if abs(r[0] - Lx) > tol or e[0] < abs(r[0] - Lx) * (1 - 1e-9) - 1e-300:
+                return True, ('dea3(%r, %r, %r) = %r with abserr %r; the terms are L + a q^k with L = %r (a=%r, q=%r)'
+                              % (t0, t1, t2, r[0], e[0], Lx, av, qv))
+        return False, 'dea3 recovers the limit on the model point and a 30-decade sweep'
     if kind in ('real', 'elementwise', 'inputs', 'sym'):
         cfg = cex['config']
         shape = tuple(cfg['shape']) or (1,)
